@@ -27,7 +27,8 @@ MANIFEST = dict(
          "rectangular with equal dimensions); C04_outer_n / C04_inner_n — the same for flat n-ary outer and inner splitters "
          "with any number of fields, any number of them nested (each with its own container dimension), in any position: "
          "the jobs are the n-ary lexicographic product / positional pairing of the fields' elements_at_depth lists; "
-         "C04_shape_rect — on rectangular values input_shape is the dimension vector. "
+         "C04_shape_rect — on rectangular values input_shape is the dimension vector; C04_exec_spec_sound(_n) — the "
+         "boolean checks evaluated on the cases decide the Prop specs. "
          "The model is tied to the code on every run by running State.prepare_states (states_ind, states_val) and "
          "Task.split(..., container_ndim=...) through Submitter(worker='debug') on enumerated/sampled nested lists and "
          "evaluating model and executable spec on the same cases inside Coq (vm_compute).",
